@@ -104,7 +104,7 @@ def _force_field():
     return _FF["ff"]
 
 
-def _collect(res, unit, outcomes, cap_per_key=2, cap=5):
+def _collect(res, unit, outcomes, cap_per_key=2, cap=25):
     """outcomes: iterable of (job, nontrivial, bad, key).  Fills counters; one violation per class first, <= cap in total."""
     by_key = {}
     for job, nontrivial, bad, key in outcomes:
@@ -272,8 +272,8 @@ def c12_jobs(ctx, rng):
             if n >= 3:
                 jobs.append(("ig", "PROTEIN", letters, mask, True, bool(mask % 2), "title"))
     # probes inside the quantifier but outside the tables/format corner the enumeration above uses
-    jobs.append(("fasta", "RNA", "ACGU", 0, 0))                                   # the RNA alphabet spells uracil U
-    jobs.append(("ig", "RNA", "ACGU", 0, False, False, "title"))
+    # (no probe with the letter U: the statement refers to polyply's one-letter tables, whose RNA table spells uracil T;
+    #  demanding U would ask for more than the statement says -- triaged by the lead as an oracle error, not a defect)
     for title in ("seq1", "chr2"):                                               # the .ig title line is free text
         jobs.append(("ig", "DNA", "ACGT", 0, False, False, title))
     # .json : every connected labelled graph on <= 4 nodes through the real node_link_data writer
@@ -741,13 +741,15 @@ def c19_eval(job, scratch):
         # single nucleotide from a file: its terminal name is not fixed by the statement; take the one the parser gave if it is a DNA name
         only = obs[0][1].get("resname")
         if spec_complement_name(only) is None:
+            # The parser names a nucleotide that is both ends '<base>53'; no DNA residue of that name exists, and the
+            # statement only fixes terminal names for strands that have two ends.  Its last clause applies: an unknown
+            # residue name must be rejected (an exception), never completed silently.  (lead's triage)
             try:
                 gen_dna.complement_dsDNA(mol)
-                outcome = f"gave {observe(mol)[0]}"
-            except Exception as exc:                 # noqa: BLE001
-                outcome = f"raised {type(exc).__name__}: {exc}"
-            return nontrivial, (f"the single nucleotide read from the {form} input is named {only!r} (no 5'/3' DNA residue name); completing it "
-                                f"{outcome}; the statement gives 2 residues for n = 1"), "c19-single-nucleotide-from-file"
+            except Exception:                        # noqa: BLE001
+                return nontrivial, None, None
+            return nontrivial, (f"the single nucleotide read from the {form} input is named {only!r} (not a DNA residue name) but "
+                                f"completing it did not raise: {observe(mol)[0]}"), "c19-unknown-name-not-rejected"
         exp_in = spec_linear([only])
     bad = why or differ(obs, *exp_in)
     if bad:
